@@ -51,6 +51,7 @@ type fnTr struct {
 	cbName     string // Iterate: the callback parameter
 	dirName    string // Iterate: the variadic direction parameter
 	inClosure  bool
+	cbArity    int // number of arguments the callback of the iteration being translated takes
 }
 
 func (t *fnTr) fail(n ast.Node, msg string) {
@@ -219,8 +220,12 @@ func (t *fnTr) stmt(s ast.Stmt, results []sort) string {
 func (t *fnTr) iterate(as *ast.AssignStmt) (string, bool) {
 	name, args, ok := t.kvCall(as.Rhs[0])
 	call, _ := as.Rhs[0].(*ast.CallExpr)
-	if !ok || name != "Iterate" || len(args) != 3 || !call.Ellipsis.IsValid() {
+	if !ok || (name != "Iterate" && name != "IterateKeys") || len(args) != 3 || !call.Ellipsis.IsValid() {
 		return "", false
+	}
+	wantParams := 2
+	if name == "IterateKeys" {
+		wantParams = 1
 	}
 	if _, ok := t.varOf(args[0], sP); !ok {
 		return "", false
@@ -245,15 +250,19 @@ func (t *fnTr) iterate(as *ast.AssignStmt) (string, bool) {
 			ps = append(ps, t.id(n, sY))
 		}
 	}
-	if len(ps) != 2 {
+	if len(ps) != wantParams {
 		return "", false
 	}
 	t.inClosure = true
+	t.cbArity = wantParams
 	body := t.block(fl.Body, []sort{sB})
 	t.inClosure = false
 	l, ok := t.lhs(as, sE)
 	if !ok {
 		return "", false
+	}
+	if name == "IterateKeys" {
+		return fmt.Sprintf("(.iterKeys %d\n %s\n %d)", ps[0], body, l[0]), true
 	}
 
 	return fmt.Sprintf("(.iter %d %d\n %s\n %d)", ps[0], ps[1], body, l[0]), true
@@ -265,12 +274,16 @@ func (t *fnTr) ret(s *ast.ReturnStmt, results []sort) string {
 			if id, ok := s.Results[0].(*ast.Ident); ok && id.Obj == nil && (id.Name == "false" || id.Name == "true") {
 				return fmt.Sprintf("(.retAdv %s)", id.Name)
 			}
-			if c, ok := s.Results[0].(*ast.CallExpr); ok && len(c.Args) == 2 && !c.Ellipsis.IsValid() {
+			if c, ok := s.Results[0].(*ast.CallExpr); ok && len(c.Args) == t.cbArity && !c.Ellipsis.IsValid() {
 				if f, ok := c.Fun.(*ast.Ident); ok && f.Name == t.cbName && t.cbName != "" {
 					k, ok1 := t.varOf(c.Args[0], sD)
-					v, ok2 := t.varOf(c.Args[1], sV)
-					if ok1 && ok2 {
-						return fmt.Sprintf("(.retCb %d %d)", k, v)
+					if ok1 && t.cbArity == 1 {
+						return fmt.Sprintf("(.retCb1 %d)", k)
+					}
+					if ok1 && t.cbArity == 2 {
+						if v, ok2 := t.varOf(c.Args[1], sV); ok2 {
+							return fmt.Sprintf("(.retCb %d %d)", k, v)
+						}
 					}
 				}
 			}
@@ -539,7 +552,7 @@ func main() {
 		fmt.Fprintln(os.Stderr, err)
 		os.Exit(1)
 	}
-	want := []string{"Get", "Has", "Set", "Delete", "DeletePrefix", "Clear", "Iterate"}
+	want := []string{"Get", "Has", "Set", "Delete", "DeletePrefix", "Clear", "Iterate", "IterateKeys"}
 	got := map[string]*fnOut{}
 	var errs []string
 	for _, d := range f.Decls {
@@ -574,7 +587,7 @@ func main() {
 		o := got[w]
 		fmt.Fprintf(&b, "/-- TypedStore.%s (typedstore.go:%d); variables: %s -/\ndef code_%s : SStmt :=\n %s\n\n", w, o.line, o.vars, w, o.body)
 	}
-	b.WriteString("def sprog : SProg :=\n  { get := code_Get, has := code_Has, set := code_Set, delete := code_Delete, deletePrefix := code_DeletePrefix, clear := code_Clear, iterate := code_Iterate }\n\nend Hive.Gen.C06StoreCode\n")
+	b.WriteString("def sprog : SProg :=\n  { get := code_Get, has := code_Has, set := code_Set, delete := code_Delete, deletePrefix := code_DeletePrefix, clear := code_Clear, iterate := code_Iterate, iterateKeys := code_IterateKeys }\n\nend Hive.Gen.C06StoreCode\n")
 	if err := os.WriteFile(os.Args[2], []byte(b.String()), 0o644); err != nil {
 		fmt.Fprintln(os.Stderr, err)
 		os.Exit(1)
